@@ -138,6 +138,8 @@ class Model(HoloPyObject):
         model = cls(**kwargs)
         if model._parameters == parameters:
             model._parameter_names = fields['_parameter_names']
+            # (a fixed ComplexPrior has been replaced by its value)
+            model._maps = maps
         else:
             msg = ("Detected inconsistencies when reloading Model. "
                    "It may differ from previously saved object")
